@@ -11,12 +11,15 @@ from ..snap import is_library_domain_error, safe_call
 
 ID = "C16"
 RULE = ("KNNSupervisedOPF and UnsupervisedOPF fits with max_k up to n-1 on Gaussian / lattice / duplicate / blob data; KNN validation sets with correct, "
-        "systematically wrong (all accuracies 0) and shuffled labels. Source-free hooks record the event log: create_arcs(k), calculate_pdf(k), "
-        "clustering(args), criterion values (opf_accuracy return values / normalised-cut return values). Offline checker: KNN candidates are exactly "
-        "1..max_k (each accuracy is attributed to the candidate whose arcs were created last; any order), best_k == smallest arg-max accuracy, the last arcs/pdf use best_k and are followed by the forced-prototype clustering; "
-        "unsupervised evaluated ks are a prefix of min_k..max_k that stops early only after a cut == 0.0, best_k == smallest arg-min cut among them, "
-        "final arcs/pdf/clustering use best_k and every arc list has best_k + n_plateaus entries. Non-trivial: >=3 candidates, >=2 distinct "
-        "criterion values, best not the first candidate; distinct = case hash.")
+        "systematically wrong (all accuracies 0) and shuffled labels, 8% with sparse class identifiers {0, ~40000..} (imperfect scores within 1e-5 of 1). "
+        "Source-free hooks record the event log: create_arcs(k), calculate_pdf(k), clustering(args), criterion values (opf_accuracy over the VALIDATION "
+        "labels / normalised-cut return values). Offline checker, independent of the order and pattern of internal calls: KNN - each accuracy belongs to "
+        "the candidate whose density estimate ran last (none observed => inconclusive); best_k was evaluated, every smaller k was evaluated and scored "
+        "strictly lower, every larger k was evaluated and scored no higher or was skipped after best_k scored exactly 1.0; unsupervised - evaluated ks are "
+        "distinct candidates of min_k..max_k, all of them unless the last evaluated cut == 0.0, best_k == smallest arg-min cut among them (a k evaluated "
+        "again is not a new candidate). Final model, judged on state: node densities == the k=best_k estimate recomputed from the pairwise weights with "
+        "the model's own constant, every predecessor link is an arc of the k=best_k graph or of its plateau symmetrisation, (unsupervised) every arc list "
+        "has best_k + n_plateaus entries. Non-trivial: >=3 candidates, >=2 distinct criterion values, best not the first candidate; distinct = case hash.")
 ASSUMPTIONS = [
     "criterion values are taken as observed (their definitions are C20's and the clustering's business)",
     "max_k <= n_train-1; unsupervised inputs with a zero density bound (every sample has >= k exact duplicates) are rejected by precondition",
